@@ -1,10 +1,11 @@
 SPECIFICATION Spec
 CONSTANTS
-  Moons = {"m1", "m2", "m3"}
+  Moons = {"m1", "m2"}
   NVals = 2
-  MaxSteps = 14
-  AllowReAdd = FALSE
+  MaxSteps = 0
+  AllowReAdd = TRUE
   MaxSlots = 3
+VIEW view
 INVARIANT TypeOK
 INVARIANT StorageAligned
 INVARIANT TablesPointHome
